@@ -86,7 +86,22 @@ def analyse(mod, run, label):
                         else: break
                     else: break
                 if c["k"] == "inst" and c["v"] == Fl.id: br = t; break
-        if br is None: raise AnalysisBroken("%s: no branch on the overflow flag" % fn.name)
+        # R1a: the checked addition is the signed 64-bit one the property speaks of
+        is64 = (ov.get("callee") or "").endswith(".i64")
+        run.check(is64, "R1-checked-add-is-signed-64-bit", {"fn": fn.name, "intrinsic": ov.get("callee")},
+                  Finding("R1-overflow-measured-in-another-range", fn.name, "sum", "checked-add", "%s detects overflow with %s: the sum is not checked against the signed 64-bit range (a wider or unsigned result type changes which sums are refused)" % (fn.name, ov.get("callee")), loc=loc(ov)))
+        if br is None:
+            # the flag exists but no branch tests it alone: look for a branch that depends on it together with other conditions
+            def depends(o, d=0):
+                if o["k"] != "inst" or d > 8: return False
+                if o["v"] == Fl.id: return True
+                x = fn.imap[o["v"]]
+                return x.op in ("zext", "trunc", "icmp", "or", "and", "xor", "select") and any(depends(y, d + 1) for y in x.ops)
+            mixed = [b.term for b in fn.blocks if b.term.op == "br" and len(b.term.ops) == 3 and depends(b.term.ops[0])]
+            run.fail(Finding("R1-overflow-condition-not-exact", fn.name, "sum", "branch",
+                             ("%s reports failure on a condition that combines the overflow flag with other tests (at %s): sums that do not overflow the signed 64-bit range can be refused" % (fn.name, loc(mixed[0]))) if mixed else
+                             ("%s never branches on the overflow flag of its checked addition: an overflowing sum is stored" % fn.name), loc=loc(mixed[0]) if mixed else loc(ov)))
+            continue
         # which successor is the overflow edge?  evaluate the condition under flag = 1
         def cond_under(o, flagval):
             if o["k"] == "int": return int(o["v"])
